@@ -29,7 +29,14 @@ RULE = ('A: objects of N=0..12 segments x every discovery answer (segment k<N, u
         'another segment, non-canonical encoding, only on early segments) x must_be_fresh x lifetime; B: adversarial producers '
         '(wrong/empty/non-canonical names, malformed components, arbitrary exceptions); C: real NDNApp + dummy face, the '
         'NetworkNack of a nacked Interest drawn from every reason value / encoding (NackReason 0, Nack header without NackReason, '
-        '1, 50/100/150, width boundaries up to 2^64-1, non-shortest encodings), plus a table reason form x nacked key '
+        '1, 50/100/150, width boundaries up to 2^64-1, non-shortest encodings), the CALLER\'S VALIDATOR WITH A LATENCY (virtual time before '
+        'its verdict): table lifetime {50, 200, 1000} x latency {0, 3 ms, L/2, 1 ms inside / exactly / 1 ms beyond what remains of the '
+        'lifetime when the Data arrives, L, L+50, 99/101/150 ms, 2L+30, 10L} x retry_times {1, 3} x {all accepted: every / first / a '
+        'middle / the last packet slow; discovery answer / middle / last segment rejected: every verdict slow, only the negative one '
+        'slow; only the positive ones slow; another segment slow} + unsegmented accepted / rejected, and 40% of the sampled scenarios '
+        'with a drawn (who is slow, latency) - judged on yields / ending / Interests sent (the fate of an Interest is decided by the '
+        'packet that answered it, whatever time the verdict takes) and validator asked once per answered Interest; '
+        'plus a table reason form x nacked key '
         '(discovery, first, middle, last segment) x losses before the Nack (0, retry-1); A/B: the InterestNack raised by the '
         'simulated network carries reasons from the same value set and the fetch must end with that reason. '
         'unsegmented objects (A and C): the name of the object relative to the fetched name - EQUAL (the CanBePrefix discovery '
